@@ -1323,6 +1323,12 @@ fn register_kernel(r: &mut Registry) {
         fp_kernel_method,
         Some(|a, b| a == b),
     );
+    // parameter combinations that make one variant compute what another one computes (a
+    // polynomial kernel of degree one without constant IS the linear kernel): still two values
+    r.model::<KernelMethod<f64>>("kernel_method_polynomial_c0_d1", KE, T, None, |_| KernelMethod::Polynomial(0.0, 1.0), fp_kernel_method, Some(|a, b| a == b));
+    r.model::<KernelMethod<f64>>("kernel_method_polynomial_c1_d0", KE, T, None, |_| KernelMethod::Polynomial(1.0, 0.0), fp_kernel_method, Some(|a, b| a == b));
+    r.model::<KernelMethod<f32>>("kernel_method_polynomial_c0_d1_f32", KE, T, None, |_| KernelMethod::Polynomial(0.0, 1.0), fp_kernel_method32, Some(|a, b| a == b));
+    r.model::<KernelMethod<f64>>("kernel_method_gaussian_eps_inf", KE, T, None, |_| KernelMethod::Gaussian(f64::INFINITY), fp_kernel_method, Some(|a, b| a == b));
     r.model::<KernelMethod<f32>>("kernel_method_gaussian_f32", KE, T, None, |p| KernelMethod::Gaussian(0.7 + (p.seed % 1000) as f32 / 3.0), fp_kernel_method32, Some(|a, b| a == b));
 }
 
